@@ -48,6 +48,8 @@ type pathState struct {
 	pc          []*Term
 	startModel  map[string]uint64
 	allocs      []*Term
+	selectForks int
+	selectLast  map[ssa.Instruction]int
 }
 
 func newPathState(prefix []Decision, kept int) *pathState {
